@@ -58,19 +58,27 @@ func spec_dig(b []byte) [sha256.Size]byte {
 //              the Alh of EVERY header of the dual proof that has its id (both, when source id == target id).
 //   dual_*   : witnesses that the dual proof went through store.VerifyDualProofV2 with these ids and hashes.
 // The wire messages are read in the state at return (VerifyDocument does not write its arguments; no frame is claimed).
-//@ func VerifyDocument
-//@   ensures state_id: r1 == nil ==> r0 != nil && r0.TxId == spec_tgt(proof).Id
-//@   ensures state_hash: r1 == nil ==> len(r0.TxHash) == 32 && spec_dig(r0.TxHash) == schema.Ghost_HdrAlh(spec_tgt(proof))
-//@   ensures known_target: r1 == nil && knownState != nil && knownState.TxId == spec_tgt(proof).Id ==> eqBytes(knownState.TxHash, r0.TxHash)
-//@   ensures known_source: r1 == nil && knownState != nil && knownState.TxId == spec_src(proof).Id ==>
-//@        len(knownState.TxHash) == 32 && spec_dig(knownState.TxHash) == schema.Ghost_HdrAlh(spec_src(proof))
-//@   ensures known_one_of: r1 == nil && knownState != nil && knownState.TxId != 0 ==>
-//@        knownState.TxId == spec_src(proof).Id || knownState.TxId == spec_tgt(proof).Id
-//@   ensures first: r1 == nil && (knownState == nil || knownState.TxId == 0) ==> spec_src(proof).Id == 1
-//@   ensures tx_one_of: r1 == nil ==> spec_txh(proof).Id == spec_src(proof).Id || spec_txh(proof).Id == spec_tgt(proof).Id
-//@   ensures tx_source: r1 == nil && spec_txh(proof).Id == spec_src(proof).Id ==>
-//@        schema.Ghost_HdrAlh(spec_txh(proof)) == schema.Ghost_HdrAlh(spec_src(proof))
-//@   ensures tx_target: r1 == nil && spec_txh(proof).Id == spec_tgt(proof).Id ==>
-//@        schema.Ghost_HdrAlh(spec_txh(proof)) == schema.Ghost_HdrAlh(spec_tgt(proof))
-//@   ensures dual_order: r1 == nil ==> spec_src(proof).Id != 0 && spec_src(proof).Id <= spec_tgt(proof).Id
-//@   ensures dual_linking: r1 == nil ==> spec_src(proof).BlTxId == spec_src(proof).Id-1 && spec_tgt(proof).BlTxId == spec_tgt(proof).Id-1
+//
+// STATUS: DRAFT, NOT VERIFIED, NOT CLAIMED (see /verif/notes/con-c01b.md, Task B). The block below is therefore written
+// with the inert prefix `//draft@` (govc only reads lines that start with `//@`); to work on it replace `//draft@` by
+// `//@` in this file and add to the block of TxHeaderFromProto in pkg/api/schema/zz_verif_contracts.go the defining
+// clause of the ghost function
+//      ensures c01b_def_alh: hdr != nil ==> r0.Alh() == Ghost_HdrAlh(hdr)
+// (not provable against the body of TxHeaderFromProto: exclude `post:schema.TxHeaderFromProto:c01b_def_*` in the C16
+// unit). Command: govc fn -depth 0 -only 'post:*' -pkg ./pkg/verification,./pkg/api/schema,./embedded/store,./embedded/ahtree,./embedded/htree verification.VerifyDocument
+//draft@ func VerifyDocument
+//draft@   ensures state_id: r1 == nil ==> r0 != nil && r0.TxId == spec_tgt(proof).Id
+//draft@   ensures state_hash: r1 == nil ==> len(r0.TxHash) == 32 && spec_dig(r0.TxHash) == schema.Ghost_HdrAlh(spec_tgt(proof))
+//draft@   ensures known_target: r1 == nil && knownState != nil && knownState.TxId == spec_tgt(proof).Id ==> eqBytes(knownState.TxHash, r0.TxHash)
+//draft@   ensures known_source: r1 == nil && knownState != nil && knownState.TxId == spec_src(proof).Id ==>
+//draft@        len(knownState.TxHash) == 32 && spec_dig(knownState.TxHash) == schema.Ghost_HdrAlh(spec_src(proof))
+//draft@   ensures known_one_of: r1 == nil && knownState != nil && knownState.TxId != 0 ==>
+//draft@        knownState.TxId == spec_src(proof).Id || knownState.TxId == spec_tgt(proof).Id
+//draft@   ensures first: r1 == nil && (knownState == nil || knownState.TxId == 0) ==> spec_src(proof).Id == 1
+//draft@   ensures tx_one_of: r1 == nil ==> spec_txh(proof).Id == spec_src(proof).Id || spec_txh(proof).Id == spec_tgt(proof).Id
+//draft@   ensures tx_source: r1 == nil && spec_txh(proof).Id == spec_src(proof).Id ==>
+//draft@        schema.Ghost_HdrAlh(spec_txh(proof)) == schema.Ghost_HdrAlh(spec_src(proof))
+//draft@   ensures tx_target: r1 == nil && spec_txh(proof).Id == spec_tgt(proof).Id ==>
+//draft@        schema.Ghost_HdrAlh(spec_txh(proof)) == schema.Ghost_HdrAlh(spec_tgt(proof))
+//draft@   ensures dual_order: r1 == nil ==> spec_src(proof).Id != 0 && spec_src(proof).Id <= spec_tgt(proof).Id
+//draft@   ensures dual_linking: r1 == nil ==> spec_src(proof).BlTxId == spec_src(proof).Id-1 && spec_tgt(proof).BlTxId == spec_tgt(proof).Id-1
